@@ -146,6 +146,42 @@ theorem Res.bind_eq_ok {α β} {r : Res α} {f : α → Res β} {y : β} (h : (r
   | err e => cases h
   | panic p => cases h
 
+/-- the filename check of `Next` only touches the counters -/
+theorem ArchDec.admit_eq_some {a a2 : ArchDec} {name : Bytes} {isDir : Bool}
+    (h : a.admit name isDir = some a2) :
+    ¬ (0 < a.nodes ∧ (name = [] ∨ a.rootNotDir = true)) ∧
+    a2 = { a with nodes := a.nodes + 1,
+                  rootNotDir := if a.nodes = 0 && name = [] && !isDir then true else a.rootNotDir } := by
+  unfold ArchDec.admit at h
+  split at h
+  · cases h
+  · rename_i hc
+    cases h
+    refine ⟨?_, rfl⟩
+    intro hh
+    apply hc
+    simpa using hh
+
+theorem ArchDec.admit_dir {a a2 : ArchDec} {name : Bytes} {isDir : Bool}
+    (h : a.admit name isDir = some a2) : a2.dir = a.dir := by
+  rw [(ArchDec.admit_eq_some h).2]
+
+theorem ArchDec.admit_st {a a2 : ArchDec} {name : Bytes} {isDir : Bool}
+    (h : a.admit name isDir = some a2) : a2.st = a.st := by
+  rw [(ArchDec.admit_eq_some h).2]
+
+theorem ArchDec.admit_last {a a2 : ArchDec} {name : Bytes} {isDir : Bool}
+    (h : a.admit name isDir = some a2) : a2.last = a.last := by
+  rw [(ArchDec.admit_eq_some h).2]
+
+theorem ArchDec.admit_skip {a a2 : ArchDec} {name : Bytes} {isDir : Bool}
+    (h : a.admit name isDir = some a2) : a2.skip = a.skip := by
+  rw [(ArchDec.admit_eq_some h).2]
+
+theorem ArchDec.admit_nodes {a a2 : ArchDec} {name : Bytes} {isDir : Bool}
+    (h : a.admit name isDir = some a2) : a2.nodes = a.nodes + 1 := by
+  rw [(ArchDec.admit_eq_some h).2]
+
 /-- general form of the invariant: whatever the loop returns, a returned node has a confined
     name and the decoder's directory stays confined -/
 theorem archLoop_confined' (fuel : Nat) (a : ArchDec) (p : Pending) (o : Option Node) (a' : ArchDec)
@@ -178,12 +214,20 @@ theorem archLoop_confined' (fuel : Nat) (a : ArchDec) (p : Pending) (o : Option 
       | (refine ih _ _ hdir (.inr ?_) h2
          rename_i hv
          simpa using hv)
-      | (obtain ⟨⟨data, s⟩, _, h3⟩ := Res.bind_eq_ok h2
+      | (have hadm := ArchDec.admit_dir ‹ArchDec.admit _ _ _ = some _›
+         obtain ⟨⟨data, s⟩, _, h3⟩ := Res.bind_eq_ok h2
          cases h3
-         exact ⟨fun n hn => by cases hn <;> exact hj, hdir⟩)
+         refine ⟨fun n hn => by cases hn; show Confined (joinPath _ _); rw [hadm]; exact hj, ?_⟩
+         show Confined (ArchDec.dir _)
+         rw [hadm]; exact hdir)
+      | (have hadm := ArchDec.admit_dir ‹ArchDec.admit _ _ _ = some _›
+         cases h2
+         refine ⟨fun n hn => by cases hn; show Confined (joinPath _ _); rw [hadm]; exact hj, ?_⟩
+         first
+           | (show Confined (joinPath _ _); rw [hadm]; exact hj)
+           | (rw [hadm]; exact hdir))
       | (cases h2
-         refine ⟨fun n hn => by cases hn <;> exact hj, ?_⟩
-         first | exact hdir | exact hj)
+         exact ⟨fun n hn => (by cases hn), hdir⟩)
 
 /-- invariant: the decoder's current directory is always Confined; every node it returns has a
     Confined name -/
